@@ -1,0 +1,43 @@
+//go:build verif
+// +build verif
+
+package dkg
+
+import (
+	"context"
+
+	"github.com/DOSNetwork/core/log"
+	"github.com/DOSNetwork/core/p2p"
+	"github.com/DOSNetwork/core/suites"
+)
+
+// Hooks for the verification harness (/verif). Built only with -tags verif.
+
+// VerifNewPDKG is NewPDKG with an injected logger (log.New returns nil before log.Init).
+func VerifNewPDKG(p p2p.P2PInterface, suite suites.Suite, logger log.Logger) PDKGInterface {
+	return &pdkg{
+		p:         p,
+		bufToNode: make(chan interface{}, 50),
+		register:  make(chan *group),
+		suite:     suite,
+		logger:    logger,
+	}
+}
+
+// VerifDistKeyShare returns the key share a finished session stored for groupId (nil if none).
+func VerifDistKeyShare(d PDKGInterface, groupId string) *DistKeyShare {
+	if g, loaded := d.(*pdkg).groups.Load(groupId); loaded {
+		return g.(*group).secShare
+	}
+	return nil
+}
+
+// VerifMergeErrors exposes the session's error fan-in.
+func VerifMergeErrors(logger log.Logger, sessionID string, cs ...chan error) chan error {
+	return mergeErrors(logger, sessionID, cs...)
+}
+
+// VerifFanOut exposes fanOut.
+func VerifFanOut(ctx context.Context, ch chan interface{}, size int) []chan interface{} {
+	return fanOut(ctx, ch, size)
+}
